@@ -38,13 +38,13 @@ type Program struct {
 
 type lmatch struct {
 	neg  bool
-	kind string // T F E H _true _false | per-query state: K:n (has mark n) V:k (value k stored) Q:n (query id is n) R:n (response rcode is n) | mark (the real plugin/mark matcher, args = marks)
+	kind string // T F E H _true _false | per-query state: K:n (has mark n) V:k (value k stored) Q:n (query id is n) R:n (response rcode is n) Y:n (question type is n) C:n (question class is n) | mark (the real plugin/mark matcher, args = marks) | rcode qtype qclass has_resp (the real matcher plugins, args = ints)
 	args []int
 }
 
 type laction struct {
 	op     string // plain wrap accept reject return jump goto | mark (the real plugin/mark executable, args = marks)
-	kind   string // plain: ok err set drop | per-query state: mk:n um:n (set/delete mark n) sv:k dv:k (store/delete value k) qi:n (query id := n) rm:n (response rcode := n, in place); wrap: see wrapKinds
+	kind   string // plain: ok err set drop | per-query state: mk:n um:n (set/delete mark n) sv:k dv:k (store/delete value k) qi:n (query id := n) rm:n (response rcode := n, in place) qt:n qc:n (question type / class := n); wrap: see wrapKinds
 	target int
 	rcode  string // reject argument text ("" = none)
 	args   []int
@@ -111,8 +111,8 @@ func render(lp *lprog, rng *rand.Rand) *Program {
 				switch m.kind {
 				case "_true", "_false":
 					s += m.kind
-				case "mark":
-					s += "mark"
+				case "mark", "rcode", "qtype", "qclass", "has_resp":
+					s += m.kind
 					for _, a := range m.args {
 						s += sep() + strconv.Itoa(a)
 					}
